@@ -262,7 +262,7 @@ Definition is_nan_value (v : value) : bool := match v with VFloat b => f_is_nan 
 
 Lemma format_value_scalar o v s f :
   is_container v = false -> is_nan_value v = false -> parse_format s None None CfNone = ROk f ->
-  format_value o v (FStr s) = render_scalar o f v.
+  format_value o v (FStr s) = Some (render_scalar o f v).
 Proof.
   intros Hc Hn Hp. unfold format_value, context_of. rewrite Hp. cbn [bind].
   destruct v; cbn in Hc, Hn |- *; try discriminate; try reflexivity.
@@ -362,8 +362,9 @@ Qed.
 
 Theorem unsupported_iff_directive o v s f c k :
   is_container v = false -> is_nan_value v = false -> parse_format s None None CfNone = ROk f ->
-  (format_value o v (FStr s) = OErr (EUnsupported c k)
+  (format_value o v (FStr s) = Some (OErr (EUnsupported c k))
    <-> (supported (kind_of v) (f_char f) = false /\ c = f_char f /\ k = kind_of v)).
 Proof.
-  intros Hc Hn Hp. rewrite (format_value_scalar o v s f Hc Hn Hp). now apply unsupported_iff.
+  intros Hc Hn Hp. rewrite (format_value_scalar o v s f Hc Hn Hp).
+  rewrite <- (unsupported_iff o f v c k Hc). split; [intros H; now injection H | intros ->; reflexivity].
 Qed.
